@@ -125,6 +125,20 @@ def do_load(db, arg, watch=True):
     if arg.startswith("!d"):
         path = tempfile.mkdtemp(prefix="verif-dir-", dir=TMP)
         cleanup = lambda: os.rmdir(path)
+    elif arg.startswith("!f"):
+        # a path that runs through a regular file (NotADirectoryError)
+        fd, base = tempfile.mkstemp(prefix="verif-file-", dir=TMP)
+        os.close(fd)
+        path = os.path.join(base, "p0f.fp")
+        cleanup = lambda: os.unlink(base)
+    elif arg.startswith("!l"):
+        # a symbolic link that points at itself (OSError ELOOP)
+        path = os.path.join(TMP or "/tmp", "verif-loop-%d-%d" % (os.getpid(), random.getrandbits(30)))
+        os.symlink(path, path)
+        cleanup = lambda: os.unlink(path)
+    elif arg.startswith("!n"):
+        # a file name longer than the file system allows (OSError ENAMETOOLONG)
+        path = os.path.join(TMP or "/tmp", "n" * 300 + ".fp")
     elif arg.startswith("!"):
         path = os.path.join(TMP or "/tmp", "verif-missing-%d-%d.fp" % (os.getpid(), random.getrandbits(30)))
     else:
